@@ -528,6 +528,13 @@ func (db *SpecDB) parseFile(file, src string) error {
 				if cl.Loop < 0 && r.kw == "invariant" {
 					return fail(fmt.Errorf("invariant needs a loop label L<k>:"))
 				}
+				// optional label: [name]
+				if strings.HasPrefix(text, "[") {
+					if rb := strings.Index(text, "]"); rb > 0 {
+						cl.Label = text[1:rb]
+						text = strings.TrimSpace(text[rb+1:])
+					}
+				}
 				cl.Text = text
 				e, err := parseExpr(text)
 				if err != nil {
